@@ -16,7 +16,7 @@ git -C /repo worktree add --detach "$W" HEAD >>"$LOG" 2>&1 || exit 3
 cleanup() { git -C /repo worktree remove --force "$W" >/dev/null 2>&1; rm -rf "$W"; }
 trap cleanup EXIT
 cd "$W"
-copy_demo() { for f in "$DST"/demo/*; do dest=$(grep -m1 -oE 'Copy this file to:?\s+\S+' "$f" | awk '{print $NF}'); [ -n "$dest" ] || dest="$(dirname "$(jq -r '.touched_files[0]' "$DST/agent_meta.json")")/$(basename "$f")"; mkdir -p "$(dirname "$dest")"; cp "$f" "$dest"; echo "$dest"; done; }
+copy_demo() { for f in "$DST"/demo/*; do dest=$(grep -m1 -oE 'Copy (this file )?to:?\s+\S+' "$f" | awk '{print $NF}'); [ -n "$dest" ] || dest="$(dirname "$(jq -r '.touched_files[0]' "$DST/agent_meta.json")")/$(basename "$f")"; mkdir -p "$(dirname "$dest")"; cp "$f" "$dest"; echo "$dest"; done; }
 rm_demo() { git clean -fdq; }
 DEMO_CMD=$(grep -h -m1 -oE 'Run with:\s+.*' "$DST"/demo/* | head -1 | sed -E 's/Run with:\s+//')
 [ -n "$DEMO_CMD" ] || DEMO_CMD=$(jq -r .demo_cmd "$DST/agent_meta.json" | sed -E 's/^cp [^&]*&& *//')
